@@ -36,7 +36,8 @@ Line(k) == [k |-> k, e |-> 0, h |-> 0, c |-> 0, n |-> "", ch |-> "", p |-> 0, o 
 
 MEv0 == [name |-> "", ch |-> "", prio |-> 0, flags |-> 0, cancelled |-> FALSE, stopped |-> FALSE,
          cause |-> 0, effects |-> 0, kind |-> 0, ref |-> 0, ca |-> 0, cb |-> 0,
-         results |-> <<>>, errors |-> FALSE, ext |-> FALSE, tracked |-> FALSE]
+         results |-> <<>>, errors |-> FALSE, ext |-> FALSE, tracked |-> FALSE,
+         firer |-> 0]          \* component whose fire() created the event (Value.manager)
 
 K0(G) == [g        |-> G,
           par      |-> [c \in 1..Len(G.chan) |-> c],
@@ -101,7 +102,7 @@ DoFire(Kx, c, name, ch0, prio, flags, kind, ref, ca, cb, oe, oh, ext) ==
       ch   == IF ch0 = "" THEN G.chan[c] ELSE ch0
       trk  == Kx.handling # 0 /\ Kx.cur.r = r /\ Kx.ev[Kx.handling].cause # 0
       rec  == [MEv0 EXCEPT !.name = name, !.ch = ch, !.prio = prio, !.flags = flags, !.kind = kind,
-                           !.ref = ref, !.ca = ca, !.cb = cb, !.ext = ext,
+                           !.ref = ref, !.ca = ca, !.cb = cb, !.ext = ext, !.firer = c,
                            !.cause = IF trk THEN Kx.handling ELSE 0,
                            !.effects = IF trk THEN 1 ELSE 0]
       K1   == [Kx EXCEPT !.ev = Append(@, rec), !.queue[r] = Append(@, <<prio, Kx.ctr[r], eid>>),
@@ -114,6 +115,7 @@ SuffixName(name, kind) ==
   CASE kind = 1 -> name \o "_success"
     [] kind = 2 -> name \o "_failure"
     [] kind = 3 -> name \o "_complete"
+    [] kind = 6 -> name \o "_value_changed"
     [] OTHER -> name
 
 (* structural operations *)
@@ -328,6 +330,14 @@ BeginDispatch ==
                                   !.ev[e].effects = IF (K.ev[e].flags \div 4) % 2 = 1 THEN 1 ELSE @]
              IN K' = K2
 
+(* Value.setValue -> inform(): with notify set, every stored result announces itself
+   with <name>_value_changed, fired by the component that fired the event, on its own
+   instance channel *)
+Inform(Kx, e) ==
+  IF (Kx.ev[e].flags \div 8) % 2 = 1
+  THEN DoFire(Kx, Kx.ev[e].firer, SuffixName(Kx.ev[e].name, 6), Kx.g.inst[Kx.ev[e].firer], 0, 0, 6, e, 0, 0, 0, 0, FALSE)
+  ELSE Kx
+
 (* one handler of the event in progress, highest priority first; among equal
    priorities the lowest id (DetOrder) or any *)
 SysDetachDue ==
@@ -352,9 +362,9 @@ Invoke(h) ==
                  K5 == IF (K4.ev[e].flags \div 2) % 2 = 1
                        THEN DoFire(K4, K4.cur.r, SuffixName(K4.ev[e].name, 2), K4.ev[e].ch, 0, 0, 2, e, 0, 0, 0, 0, FALSE)
                        ELSE K4
-             IN K' = DoFire(K5, K5.cur.r, "exception", "", 0, 0, 5, e, 0, 0, 0, 0, FALSE)
+             IN K' = Inform(DoFire(K5, K5.cur.r, "exception", "", 0, 0, 5, e, 0, 0, 0, 0, FALSE), e)
         ELSE LET K3 == Emit(K2, << [Line("ret") EXCEPT !.e = e, !.h = h, !.v = r[2]] >>)
-             IN K' = IF r[2] # 0 THEN [K3 EXCEPT !.ev[e].results = Append(@, r[2])] ELSE K3
+             IN K' = IF r[2] # 0 THEN Inform([K3 EXCEPT !.ev[e].results = Append(@, r[2])], e) ELSE K3
 
 EndDispatch ==
   /\ K.cur.e # 0
